@@ -441,7 +441,19 @@ class Pointwise(Interp):
                 a = args[0]
                 return (PV(a.poly, a.cont, "arr", a.origin, uniq=True), VoxCounts())
             return Unknown("np.unique with options")
-        if n in _UFUNC_OPS and len(args) == 2 and not (set(kwargs) - {"out", "casting"}):
+        if n in _UFUNC_OPS and len(args) == 2 and not (set(kwargs) - {"out", "casting", "dtype"}):
+            if "dtype" in kwargs:
+                # the operation is carried out in the requested dtype: array operands are cast to it first
+                dt = dtype_of(kwargs["dtype"])
+                if dt is None:
+                    return Unknown(f"{n} with an unknown dtype=")
+                cast = []
+                for a_ in args:
+                    if isinstance(a_, PV) and a_.kind != "py" and a_.cont != dt:
+                        self.event(node, "astype", a_.poly, dt, "ufunc dtype= cast")
+                        a_ = PV(a_.poly, dt, a_.kind, a_.origin, uniq=a_.uniq)
+                    cast.append(a_)
+                args = cast
             res = self.binop(_UFUNC_OPS[n](), args[0], args[1], node)
             out = kwargs.get("out")
             if out is not None:
